@@ -536,10 +536,18 @@ func (w *metaWorld) checkCounters(after string) {
 			r.Failf("view-error", "GetContainerInfo", "after %s: %v", after, err)
 		}
 		if info.ObjectsNumber != want.ObjectsNumber {
-			r.Failf("container-count", cntSig("ObjectsNumber", info.ObjectsNumber, want.ObjectsNumber), "after %s: container c%d reports %d objects, %d stored physical objects are not marked for removal\nmodel: %s", after, cn, info.ObjectsNumber, want.ObjectsNumber, m.Describe())
+			sig := cntSig("ObjectsNumber", info.ObjectsNumber, want.ObjectsNumber) + w.explain(cn)
+			d := int64(info.ObjectsNumber) - int64(want.ObjectsNumber)
+			if d < 0 {
+				d = -d
+			}
+			if d <= int64(m.C[cn].NonPhyMarkOps) {
+				sig += " [explained: by at most the number of garbage keys created/removed for ids that are not stored physical objects]"
+			}
+			r.Failf("container-count", sig, "after %s: container c%d reports %d objects, %d stored physical objects are not marked for removal\nmodel: %s", after, cn, info.ObjectsNumber, want.ObjectsNumber, m.Describe())
 		}
 		if info.StorageSize != want.StorageSize {
-			r.Failf("container-size", cntSig("StorageSize", info.StorageSize, want.StorageSize), "after %s: container c%d reports payload size %d, stored unmarked physical payload is %d\nmodel: %s", after, cn, info.StorageSize, want.StorageSize, m.Describe())
+			r.Failf("container-size", cntSig("StorageSize", info.StorageSize, want.StorageSize)+w.explain(cn), "after %s: container c%d reports payload size %d, stored unmarked physical payload is %d\nmodel: %s", after, cn, info.StorageSize, want.StorageSize, m.Describe())
 		}
 		if info.ObjectsNumber > 1<<62 || info.StorageSize > 1<<62 {
 			r.Failf("wrap", "container counter wrapped", "after %s: container c%d counters wrapped: %+v", after, cn, info)
@@ -558,9 +566,28 @@ func (w *metaWorld) checkCounters(after string) {
 			r.Failf("wrap", p.name+" counter wrapped", "after %s: %s counter wrapped: %d", after, p.name, p.got)
 		}
 		if p.got != p.want {
-			r.Failf("counter", cntSig(p.name, p.got, p.want), "after %s: %s counter is %d, metadata indexes %d such objects\nmodel: %s", after, p.name, p.got, p.want, m.Describe())
+			r.Failf("counter", cntSig(p.name, p.got, p.want)+w.explain(-1), "after %s: %s counter is %d, metadata indexes %d such objects\nmodel: %s", after, p.name, p.got, p.want, m.Describe())
 		}
 	}
+}
+
+func (w *metaWorld) explain(cn int) string {
+	for i := range w.m.C {
+		if (cn < 0 || i == cn) && w.m.C[i].PartialRevives > 0 {
+			return " [explained: an object with several tombstones was revived, one tombstone was removed and the object stays tombstoned but is accounted as revived]"
+		}
+	}
+	if cn >= 0 && w.m.C[cn].Reputs > 0 {
+		return " [explained: an object was accepted and indexed while its address (or its parent) was hidden by a garbage mark]"
+	}
+	if cn < 0 {
+		for i := range w.m.C {
+			if w.m.C[i].Reputs > 0 {
+				return " [explained: an object was accepted and indexed while its address (or its parent) was hidden by a garbage mark]"
+			}
+		}
+	}
+	return ""
 }
 
 func cntSig(name string, got, want uint64) string {
@@ -767,25 +794,10 @@ func runMetaHistory(r *simkit.R, views, counters bool) {
 		check(after)
 	}
 	if counters {
-		before, _ := w.db.ObjectCounters()
-		var infos []ContainerInfo
-		for cn := range u.Cnrs {
-			ci, _ := w.db.GetContainerInfo(u.Cnrs[cn])
-			infos = append(infos, ci)
-		}
 		if err := w.db.SyncCounters(); err != nil {
 			r.Failf("op-error", "SyncCounters", "SyncCounters: %v", err)
 		}
-		afterC, _ := w.db.ObjectCounters()
-		if before.Phy != afterC.Phy || before.Root != afterC.Root || before.TS != afterC.TS || before.Lock != afterC.Lock || before.Link != afterC.Link {
-			r.Failf("counter", "recount differs from incrementally maintained counters", "SyncCounters changed counters: %+v -> %+v\nmodel: %s", before, afterC, w.m.Describe())
-		}
-		for cn := range u.Cnrs {
-			ci, _ := w.db.GetContainerInfo(u.Cnrs[cn])
-			if ci != infos[cn] {
-				r.Failf("container-count", "recount differs from incrementally maintained container info", "SyncCounters changed container c%d info: %+v -> %+v\nmodel: %s", cn, infos[cn], ci, w.m.Describe())
-			}
-		}
+		r.Op("SyncCounters")
 		w.checkCounters("SyncCounters")
 	}
 	if nops >= 5 && removals > 0 {
